@@ -7,9 +7,7 @@ import (
 )
 
 // notApplicable lists the properties that are not claimed, with the reason (DESIGN.md section 4).
-var notApplicable = map[string]string{
-	"C18": "Name visibility across modules is decided by run-time contents of the compiler's symbol tables (post-hoc alias prefixing, truncation, depth counters) per module tree, and search order is the order and arguments of two os.Stat probes: no structural necessary condition can be stated without restating the code (a frozen-fragment match). The capability side (no loader ⇒ no file access, partial loaders yield errors) is decided under C19/C08.",
-}
+var notApplicable = map[string]string{}
 
 var techniques = map[string]string{
 	"C01": "custom static analysis: VM dispatch model (AST+types), fork save/restore pairing, CFG closer-pairing, writer/reader operand-type agreement, bytecode verifier over literal instruction lists and lowering templates",
@@ -29,6 +27,7 @@ var techniques = map[string]string{
 	"C15": "custom static analysis: stream discipline (stdout writers), status-constant and ExitCode table, input-loop exits, terminator bytes",
 	"C16": "custom static analysis: shared-iterator identity, sticky-error typestate over all input iterators, UseNumber typestate",
 	"C17": "custom dataflow rule: tee capture-buffer window protocol (bytes dropped only up to the decoder's InputOffset)",
+	"C18": "custom static analysis: defer/pairing and capture-time audit of compileModule, emission census of data imports, total-comparator check of modulemeta lists; one genuine defect (importer names visible inside imported modules) carried as a known finding",
 	"C19": "custom capability analysis: ambient-authority symbol census over the call graph, option-only field stores, nil-guarded capability uses, sibling call sites of custom functions",
 	"C20": "custom static analysis: tail-position check of recursive builtin definitions over the evaluated builtin.go AST, tail-call rewrite conditions, frame reuse ordering, per-iteration backtrack pairing",
 }
